@@ -335,4 +335,25 @@ theorem C09_src_minute_grid_mean (reads : List Reading) (hs : reads.Pairwise (fu
     congr 2
     exact_mod_cast hcount
 
+/-- **the whole sub-hourly temperature path on the minute grid is the closed form** (`instDaily false`: the repaired code,
+which does not divide by the coverage), for every feed on a strictly increasing index and non-decreasing day boundaries -/
+theorem C09_src_minute_grid_inst_daily (reads : List Reading) (hs : reads.Pairwise (fun a b => a.1 < b.1))
+    (bounds : List Int) (hb : bounds.Pairwise (· ≤ ·)) :
+    instDailyMin reads bounds = instDaily false reads bounds := by
+  unfold instDailyMin instDaily
+  apply List.map_congr_left
+  intro d hd
+  have hle := EEM.Props.C08.days_ordered bounds hb d hd
+  have hch := periods_chained reads hs
+  have hn : d.1 + ((d.2 - d.1).toNat : Int) = d.2 := by omega
+  have hcount := valCount_eq (·.v) (fun _ => rfl) (periods reads) hch (d.2 - d.1).toNat d.1
+  rw [hn] at hcount
+  unfold instDayMin instDay coverage
+  rw [C09_src_minute_grid_mean reads hs d.1 d.2 hle]
+  have : ((((minutes d.1 d.2).filter fun m => (heldAt (periods reads) m).isSome).length : Nat) : Rat) =
+      ((dayCovered (periods reads) d.1 d.2 : Int) : Rat) := by
+    unfold minutes heldAt
+    exact_mod_cast hcount
+  simp only [this, Bool.false_eq_true, if_false, Option.map_id']
+
 end EEM.Props.C09
